@@ -79,6 +79,31 @@ func hookKillScenario(c *sup.Ctx, r *rng.R) {
 	reportCrash(c, run, &o)
 }
 
+// withMetaKillScenario: every call in flight is a SetWithMeta / DeleteWithMeta (document, high-water marks and view
+// reset are several statements of one transaction) and the view is brought up to date after every call.
+func withMetaKillScenario(c *sup.Ctx, r *rng.R) {
+	point := crashPoints[c.Local%len(crashPoints)]
+	run := &crash.Run{Tmp: c.Tmp, Writer: crash.WriterArgs{Seed: c.Seed*1000 + uint64(c.Local%6), Ops: 16, Point: point, Nth: 2 + (c.Local/len(crashPoints))%34, Profile: "withmeta"}, Reader: crash.ReaderArgs{Mode: 2 - 2*(c.Local%2), NewWrites: 1}}
+	o := run.Execute()
+	reportCrash(c, run, &o)
+}
+
+// adminKillScenario: PutDDoc / DeleteDDoc / CreateDataStore / DropDataStore after every document operation.
+func adminKillScenario(c *sup.Ctx, r *rng.R) {
+	point := crashPoints[c.Local%3] // txn.begin, txn.precommit, cas.between do not all occur in admin calls; postcommit via %5 below
+	if c.Local%5 == 4 {
+		point = "txn.postcommit"
+	}
+	run := &crash.Run{Tmp: c.Tmp, Writer: crash.WriterArgs{Seed: c.Seed*1000 + uint64(c.Local%8), Ops: 14, Point: point, Nth: 2 + (c.Local/5)%40, Profile: "admin"}, Reader: crash.ReaderArgs{Mode: 2 - 2*(c.Local%2), NewWrites: 1}}
+	if c.Local%7 == 6 {
+		run.Writer.Point = ""
+		run.Strace = 100 + (c.Local/7)*9
+	}
+	o := run.Execute()
+	c.Count("admin_crash_runs", 1)
+	reportCrash(c, run, &o)
+}
+
 func straceKillScenario(c *sup.Ctx, r *rng.R) {
 	hist := uint64(c.Local % 12)
 	// opening the bucket (schema, collections, design document) takes ~120 pwrite64 calls spread over several
@@ -170,6 +195,8 @@ func init() {
 		Assumptions: []string{"process death only: power loss / fsync ordering is not observable here (the page cache survives a killed process)", "kills before the writer reported the bucket open are outside the statement and are not judged", "strace counts pwrite64 per thread, so N selects a crash point only approximately; the oracle does not depend on where the kill landed"},
 		Parts: []sup.Part{
 			crashPart("hook-kills", 480, 6000, hookKillScenario),
+			crashPart("hook-kills-withmeta", 170, 1700, withMetaKillScenario),
+			crashPart("kills-during-admin-calls", 160, 2400, adminKillScenario),
 			crashPart("pwrite-kills", 144, 3000, straceKillScenario),
 			crashPart("controls", 45, 300, controlScenario),
 			crashPart("reopen-clock", 40, 400, reopenClockScenario),
